@@ -116,6 +116,14 @@ theorem no_database_is_empty_book (s : Settings) (fs : Files) (h : s.gNoDatabase
   have : (effective s).dbFile = App.devNull := by simp [effective, h, Options.devNull]
   exact ⟨this, by rw [this]; simp [readFile]⟩
 
+/-- **`--no-database` touches the recipe book only**: the log file, the date format and the depth limit in force are what they
+    are without it, whatever their sources -/
+theorem no_database_touches_only_the_book (s : Settings) :
+    (effective { s with gNoDatabase := true }).logFile = (effective { s with gNoDatabase := false }).logFile
+    ∧ (effective { s with gNoDatabase := true }).fmtRaw = (effective { s with gNoDatabase := false }).fmtRaw
+    ∧ (effective { s with gNoDatabase := true }).maxDepth = (effective { s with gNoDatabase := false }).maxDepth := by
+  refine ⟨rfl, rfl, rfl⟩
+
 /-- an empty book file and the null device give the same parse -/
 theorem empty_book_same_parse (fs : Files) (rf : ReadFaults) (p : Bytes) (hp : fs.find? (·.1 == p) = some (p, [])) (hnf : faultOf rf p = none) (hnf' : faultOf rf App.devNull = none) :
     parsed fs rf p = parsed fs rf App.devNull := by
